@@ -106,10 +106,11 @@ const (
 	shSignedGarbage
 	shSignedThenForged
 	shUnknownFlagExtNoSig // block-id flag 0 (the proto default, neither commit nor absent nor nil) with an unsigned extension
+	shSuffixedAddresses   // a genuine vote, listed again under the validator's address followed by 01 and by 02 (21 bytes: nobody's address)
 	numShapes
 )
 
-var c15ShapeNames = []string{"absent", "signed(p)", "signed(q)", "signed-noBTC", "signed-noTimestamp", "bad-signature", "other-chain-id", "other-height", "other-round", "listed-twice", "non-commit-empty", "non-commit-with-extension", "non-commit-extension-unsigned", "non-commit-signature-only", "commit-extension-unsigned", "signed-undecodable-extension", "signed(p)-then-a-forged-duplicate", "unknown-flag-extension-unsigned"}
+var c15ShapeNames = []string{"absent", "signed(p)", "signed(q)", "signed-noBTC", "signed-noTimestamp", "bad-signature", "other-chain-id", "other-height", "other-round", "listed-twice", "non-commit-empty", "non-commit-with-extension", "non-commit-extension-unsigned", "non-commit-signature-only", "commit-extension-unsigned", "signed-undecodable-extension", "signed(p)-then-a-forged-duplicate", "unknown-flag-extension-unsigned", "signed(p)-and-again-under-suffixed-addresses"}
 
 type c15State struct {
 	ctx    sdk.Context
@@ -407,6 +408,17 @@ func (y *c15Sys) buildV(s *c15State, votes []c15Vote, height uint64, ts int64) (
 			entry(y.ext(s, 90000, c15Pairs, ts), nil, cmtproto.BlockIDFlagCommit)
 		case shUnknownFlagExtNoSig:
 			entry(y.ext(s, 90000, c15Pairs, ts), nil, cmtproto.BlockIDFlagUnknown)
+		case shSuffixedAddresses:
+			// the validator's own signed vote counts once; the copies under 21-byte addresses are votes of
+			// validators nobody recorded
+			e := y.ext(s, 50000, c15Pairs, ts)
+			sig := y.sign(v.key, c15ChainID, signH, c15Round, e)
+			entry(e, sig, cmtproto.BlockIDFlagCommit)
+			for _, sfx := range []byte{1, 2} {
+				eci.Votes = append(eci.Votes, cometabci.ExtendedVoteInfo{Validator: cometabci.Validator{Address: append(append([]byte{}, addr...), sfx), Power: claimed}, VoteExtension: e, ExtensionSignature: sig, BlockIdFlag: cmtproto.BlockIDFlagCommit})
+			}
+			mark(c15Pairs)
+			priced(c15Pairs, 50000)
 		case shSignedGarbage:
 			e := []byte("not a compressed vote extension")
 			entry(e, y.sign(v.key, c15ChainID, signH, c15Round, e), cmtproto.BlockIDFlagCommit)
@@ -772,7 +784,7 @@ func init() {
 				res.Require(y.changed.Load() > 0 && y.rejected.Load() > 0, "%s: vote matrix is one-sided", name)
 				res.Require(res.OutcomeCount(name, "Update/accepted-changed") > 0 && res.OutcomeCount(name, "Update/rejected") > 0 && res.OutcomeCount(name, "ValsetRefresh/replaced") > 0 && res.OutcomeCount(name, "ValsetRefresh/ignored") > 0, "%s: history outcomes missing", name)
 			}
-			res.Coverage["alphabet"] = "histories: Update(timestamp∈{t1<t2<t3}, all validators sign all pairs | all but BTC), ValsetRefresh(height∈{recorded-1, recorded, recorded+5}, client∈{configured, other, other of another length, \"\"}, set∈{V,V'}), SetOracleFlag(on|off), and — in the configuration whose bridge info starts without an L1 client id — SetL1ClientId; probe family (root state, and every depth-1 state in the thorough tier): all 18^n combinations of per-validator vote shapes {absent, signed p, signed q, no BTC price, no timestamp, bad signature, other chain id, other height, other round, listed twice, non-commit empty, non-commit with extension and signature, non-commit with unsigned extension, non-commit with signature only, commit flag with unsigned extension, correctly signed undecodable extension} × unknown validator present/absent, plus sender / update-height / timestamp variations"
+			res.Coverage["alphabet"] = "histories: Update(timestamp∈{t1<t2<t3}, all validators sign all pairs | all but BTC), ValsetRefresh(height∈{recorded-1, recorded, recorded+5}, client∈{configured, other, other of another length, \"\"}, set∈{V,V'}), SetOracleFlag(on|off), and — in the configuration whose bridge info starts without an L1 client id — SetL1ClientId; probe family (root state, and every depth-1 state in the thorough tier): all 19^n combinations of per-validator vote shapes {absent, signed p, signed q, no BTC price, no timestamp, bad signature, other chain id, other height, other round, listed twice, non-commit empty, non-commit with extension and signature, non-commit with unsigned extension, non-commit with signature only, commit flag with unsigned extension, correctly signed undecodable extension} × unknown validator present/absent, plus sender / update-height / timestamp variations"
 			res.Coverage["oracle"] = "a pair's stored price or timestamp changed ⇒ sender is a bridge executor ∧ oracle flag on ∧ update height ≥ recorded validator-set height ∧ the distinct known validators that (by the harness's own signing bookkeeping) supplied a price for that pair under a correct commit-flag signature over (L1 chain id, height-1, round, extension) hold ≥ 2/3 of the recorded power ∧ the new timestamp is strictly greater; rejected ⇒ digest unchanged; validator set changed ⇒ refresh from the configured client at a strictly higher height"
 			res.Assumptions = []string{"real connect x/oracle keeper, codecs and vote aggregator; validator sets (1,1,1), (3,1,1) and, thorough, (2,1,1,1)"}
 			return res
